@@ -30,6 +30,9 @@ class Abort(BaseException):
 NEW, RUNNABLE, BLOCKED, DONE = "new", "runnable", "blocked", "done"
 FAIRNESS_BOUND = 300_000     # consecutive yield points one thread may run while others are runnable
 
+HOT_FILES = ("experiment_evaluator.py", "wraper_functions.py")
+_HARNESS_DIR = os.path.dirname(os.path.abspath(__file__)) + os.sep
+FOREIGN_POINT_BUDGET = 300_000   # per run: beyond this, foreign (non-package) frames run atomically again
 _ACTIVE = None          # the Scheduler currently running (one per process at a time)
 SINGLE_THREADED = True  # outside a simulation the harness processes have exactly one thread
 _real_allocate = _thread.allocate_lock
@@ -164,7 +167,9 @@ def install_locks():
 # frame classification
 # ---------------------------------------------------------------------------
 class FrameClasses:
-    """0 = not a pre-emption frame, 1 = line granularity, 2 = opcode granularity, 5 = generated code (line granularity, hot)."""
+    """0 = not a pre-emption frame, 1 = line granularity (vendored sly), 2 = instruction granularity, hot (experiment_evaluator.py,
+    wraper_functions.py), 5 = generated code (line granularity, hot), 6 = instruction granularity, ordinary (every other module of
+    the package: a check-then-act written on ONE source line can still be split)."""
 
     def __init__(self):
         self.pkg = os.path.join(repo_src(), "pyab_experiment") + os.sep
@@ -180,9 +185,17 @@ class FrameClasses:
                 cls = 5                      # generated code: few lines per call, each one a "hot" line point
             elif fn.startswith(self.pkg):
                 base = os.path.basename(fn)
-                cls = 2 if base in ("experiment_evaluator.py", "wraper_functions.py") else 1
+                if base in HOT_FILES:
+                    cls = 2
+                elif fn.startswith(self.pkg + "sly" + os.sep):
+                    cls = 1
+                else:
+                    cls = 6
+            elif (fn.startswith(_HARNESS_DIR) or fn.startswith("<frozen") or "importlib" in fn or fn.startswith("<")
+                  or not fn.endswith(".py")):
+                cls = 0                      # the harness itself, the import system, synthetic code
             else:
-                cls = 0
+                cls = 7                      # any other Python code a simulated thread runs into (stdlib, third party): line granularity
             h = 0
             for ch in f"{os.path.basename(fn)}:{code.co_name}:{code.co_firstlineno}":
                 h = (h * 131 + ord(ch)) % 1000003
@@ -194,7 +207,6 @@ class FrameClasses:
 # ---------------------------------------------------------------------------
 # instruction-level pre-emption in the publish / check-then-act files
 # ---------------------------------------------------------------------------
-HOT_FILES = ("experiment_evaluator.py", "wraper_functions.py")
 _HOT_TOOL = 4
 _hot_installed = []
 HOT_COUNT = [0]
@@ -244,9 +256,11 @@ def install_hot_instrumentation(fc):
     mon = sys.monitoring
     mon.use_tool_id(_HOT_TOOL, "pyab-sim")
     for modname in ("pyab_experiment.experiment_evaluator", "pyab_experiment.utils.wraper_functions"):
-        mod = importlib.import_module(modname)
-        fn = getattr(mod, "__file__", "")
-        if os.path.basename(fn) not in HOT_FILES:
+        importlib.import_module(modname)
+    pkg = os.path.join(repo_src(), "pyab_experiment") + os.sep
+    for modname, mod in sorted(sys.modules.items()):
+        fn = getattr(mod, "__file__", None) or ""
+        if not modname.startswith("pyab_experiment") or not fn.startswith(pkg) or fn.startswith(pkg + "sly" + os.sep):
             continue
         for code in _code_objects_of(mod, fn):
             mon.set_local_events(_HOT_TOOL, code, mon.events.INSTRUCTION)
@@ -257,12 +271,14 @@ def install_hot_instrumentation(fc):
     def on_instruction(code, offset):
         s = _ACTIVE
         if s is None:
-            HOT_COUNT[0] += 1          # sequential phases: lets the harness measure how many hot points an operation has
+            if classify(code)[0] == 2:
+                HOT_COUNT[0] += 1      # sequential phases: lets the harness measure how many hot points an operation has
             return
         t = s.by_ident.get(get_ident())
         if t is None:
             return
-        s.yield_point(t, 2, classify(code)[1], offset)
+        c = classify(code)
+        s.yield_point(t, c[0], c[1], offset)
 
     mon.register_callback(_HOT_TOOL, mon.events.INSTRUCTION, on_instruction)
     return _hot_installed
@@ -514,9 +530,10 @@ class Scheduler:
         self.main_gate.acquire()
         self.stats = {}
         self.hot_points = 0
-        self.cnt = [0, 0, 0, 0, 0, 0]
-        self.next_at = [INF, INF, INF, INF, INF, INF]
+        self.cnt = [0, 0, 0, 0, 0, 0, 0]
+        self.next_at = [INF, INF, INF, INF, INF, INF, INF]
         self.last_code_h = 0
+        self.foreign_points = 0
         self.fair_at = FAIRNESS_BOUND
 
     # -- called on the simulated threads ----------------------------------------
@@ -532,6 +549,11 @@ class Scheduler:
             self.hot_points += 1
             if self.merge_hot:
                 cls = 1
+        elif cls == 6:
+            cls = 1                      # ordinary package code: finer points, same switching policy as line points
+        elif cls == 7:
+            self.foreign_points += 1
+            cls = 1
         elif cls == 3:
             self.last_code_h = code_h
         c = self.cnt[cls] = self.cnt[cls] + 1
@@ -677,13 +699,29 @@ class Scheduler:
                 yp(t, 5, classify(frame.f_code)[1], frame.f_lasti)
             return local_gen
 
+        def local_foreign(frame, event, arg):
+            if event == "line":
+                yp(t, 7, classify(frame.f_code)[1], frame.f_lasti)
+            return local_foreign
+
         def global_trace(frame, event, arg):
-            # class 2 frames are pre-empted per instruction through sys.monitoring (install_hot_instrumentation)
+            # class 2 / 6 frames are pre-empted per instruction through sys.monitoring (install_hot_instrumentation)
             c = classify(frame.f_code)[0]
             if c == 1:
                 return local_line
             if c == 5:
                 return local_gen
+            if c == 7 and self.foreign_points < FOREIGN_POINT_BUDGET:
+                # only code the PACKAGE runs into: walking up, a package frame must come before any harness frame
+                # (the scheduler itself calls into random.py and must never be pre-empted inside its own decisions)
+                f = frame.f_back
+                while f is not None:
+                    fc = classify(f.f_code)[0]
+                    if fc in (1, 2, 5, 6):
+                        return local_foreign
+                    if fc == 0 and f.f_code.co_filename.startswith(_HARNESS_DIR):
+                        return None
+                    f = f.f_back
             return None
 
         return global_trace
